@@ -12,17 +12,19 @@ open Moto Moto.Disk
 /-- **C07 (any well-formed image is extracted exactly)**: for every four-sided image whose sides
     are consistent file systems — whoever wrote them, whatever the allocation order and
     fragmentation, with deleted and never-used entries anywhere — and whose live entries have
-    ordinary names, `--extract` returns 0 and writes, for every side, exactly the files the
+    ordinary names, none of which would be extracted onto the archive itself (`hk`; the extractor
+    refuses that, C20), `--extract` returns 0 and writes, for every side, exactly the files the
     independent decoder `Spec.Dos.files` finds there, in catalog order, each with the content the
     decoder assigns to its chain. -/
 theorem wellformed_image_extracted_exactly (fl : Flavour) (verbose : Bool) (archive : Str) (into : Option Str) (img : Image)
-    (h : ImgOk img) (hn : ∀ k, k < 4 → NiceSide (img.getD k [])) :
+    (h : ImgOk img) (hn : ∀ k, k < 4 → NiceSide (img.getD k []))
+    (hk : ∀ p ∈ sidesFiles (Tape.targetDirOf archive into) img 0, samePath p.1 archive = false) :
     (extract fl verbose archive into (save fl img)).status = .ret 0
     ∧ (extract fl verbose archive into (save fl img)).writes = sidesFiles (Tape.targetDirOf archive into) img 0
     ∧ ∀ k, k < 4 → ∀ dir, ∃ fs, Spec.Dos.files (img.getD k []) = some fs
         ∧ sideFiles (img.getD k []) dir
             = fs.map (fun f => (pathJoin dir (fileNameOf ⟨1, recordOfBytes (slotData (img.getD k []) f.slot), []⟩), f.content)) := by
-  obtain ⟨h1, h2⟩ := extract_consistent fl verbose archive into img h hn
+  obtain ⟨h1, h2⟩ := extract_consistent fl verbose archive into img h hn hk
   refine ⟨h1, h2, ?_⟩
   intro k hk dir
   obtain ⟨bat, own, inv⟩ := h.2 k hk
@@ -35,14 +37,15 @@ theorem wellformed_image_extracted_exactly (fl : Flavour) (verbose : Bool) (arch
     `readReport 1`. -/
 theorem images_of_one_two_or_four_sides (fl : Flavour) (verbose : Bool) (archive : Str) (into : Option Str) (img : Image)
     (hall : ∀ sd ∈ img, SideOk sd ∧ NiceSide sd)
-    (hn : img.length = 4 ∨ (fl = .fd ∧ (img.length = 1 ∨ img.length = 2))) :
+    (hn : img.length = 4 ∨ (fl = .fd ∧ (img.length = 1 ∨ img.length = 2)))
+    (hk : ∀ p ∈ sidesFiles (Tape.targetDirOf archive into) img 0, samePath p.1 archive = false) :
     (list fl verbose (save fl img)).status = .ret 0
     ∧ (list fl verbose (save fl img)).out = [readReport 0 verbose img]
     ∧ (extract fl verbose archive into (save fl img)).status = .ret 0
     ∧ (extract fl verbose archive into (save fl img)).writes = sidesFiles (Tape.targetDirOf archive into) img 0
     ∧ (extract fl verbose archive into (save fl img)).out = [intoText into ++ readReport 1 verbose img] := by
   obtain ⟨h1, h2⟩ := list_report_n fl verbose img hall hn
-  obtain ⟨h3, h4, h5⟩ := extract_n fl verbose archive into img hall hn
+  obtain ⟨h3, h4, h5⟩ := extract_n fl verbose archive into img hall hn hk
   exact ⟨h2, h1, h3, h4, h5⟩
 
 /-- **C07 (reader ∘ independent writer)**: for every well-formed description of a side — files in
